@@ -214,6 +214,22 @@ impl<T: Dom, E: Dom> Dom for Result<T, E> {
         }
     }
 }
+impl<T: Dom + Clone> Dom for std::ops::Range<T> {
+    fn dom() -> Vec<Self> {
+        let s = T::small();
+        let mut out = vec![];
+        for a in &s {
+            for b in &s {
+                out.push(a.clone()..b.clone());
+            }
+        }
+        out
+    }
+    fn biteq(&self, o: &Self) -> bool {
+        self.start.biteq(&o.start) && self.end.biteq(&o.end)
+    }
+}
+
 impl<T: Dom> Dom for Box<T> {
     fn dom() -> Vec<Self> {
         T::dom().into_iter().map(Box::new).collect()
